@@ -106,16 +106,16 @@ Qed.
 
 Lemma st_promote_cong s s' g p m a : geq s s' -> oeq (st_promote s g p m a) (st_promote s' g p m a).
 Proof.
-  intros E. unfold st_promote. rewrite <- (E (g, m)).
+  intros E. unfold st_promote. rewrite <- (E (g, m)), <- (actor_manages_cong s s' g p E).
   destruct (glookup (g, m) s) as [v|]; [|exact I].
-  destruct (is_manager v); [exact E|apply st_modify_cong; exact E].
+  destruct (is_manager v); [destruct (actor_manages s g p); [exact E|exact I]|apply st_modify_cong; exact E].
 Qed.
 
 Lemma st_demote_cong s s' g p m a : geq s s' -> oeq (st_demote s g p m a) (st_demote s' g p m a).
 Proof.
-  intros E. unfold st_demote. rewrite <- (E (g, m)).
+  intros E. unfold st_demote. rewrite <- (E (g, m)), <- (actor_manages_cong s s' g p E).
   destruct (glookup (g, m) s) as [v|]; [|exact I].
-  destruct (is_pull (acc v)); [exact E|apply st_modify_cong; exact E].
+  destruct (is_pull (acc v)); [destruct (actor_manages s g p); [exact E|exact I]|apply st_modify_cong; exact E].
 Qed.
 
 (** wf *)
@@ -143,12 +143,12 @@ Qed.
 Lemma st_promote_wf s g p m a : wf s -> owf (st_promote s g p m a).
 Proof.
   intros W. unfold st_promote. destruct (glookup (g, m) s) as [v|]; [|exact I].
-  destruct (is_manager v); [exact W|apply st_modify_wf; exact W].
+  destruct (is_manager v); [destruct (actor_manages s g p); [exact W|exact I]|apply st_modify_wf; exact W].
 Qed.
 Lemma st_demote_wf s g p m a : wf s -> owf (st_demote s g p m a).
 Proof.
   intros W. unfold st_demote. destruct (glookup (g, m) s) as [v|]; [|exact I].
-  destruct (is_pull (acc v)); [exact W|apply st_modify_wf; exact W].
+  destruct (is_pull (acc v)); [destruct (actor_manages s g p); [exact W|exact I]|apply st_modify_wf; exact W].
 Qed.
 
 (** no conditions *)
@@ -178,12 +178,12 @@ Qed.
 Lemma st_promote_gnc s g p m a : nc a -> gnc s -> ognc (st_promote s g p m a).
 Proof.
   intros Ha H. unfold st_promote. destruct (glookup (g, m) s) as [v|]; [|exact I].
-  destruct (is_manager v); [exact H|apply st_modify_gnc; assumption].
+  destruct (is_manager v); [destruct (actor_manages s g p); [exact H|exact I]|apply st_modify_gnc; assumption].
 Qed.
 Lemma st_demote_gnc s g p m a : nc a -> gnc s -> ognc (st_demote s g p m a).
 Proof.
   intros Ha H. unfold st_demote. destruct (glookup (g, m) s) as [v|]; [|exact I].
-  destruct (is_pull (acc v)); [exact H|apply st_modify_gnc; assumption].
+  destruct (is_pull (acc v)); [destruct (actor_manages s g p); [exact H|exact I]|apply st_modify_gnc; assumption].
 Qed.
 
 (** * [apply_action] *)
